@@ -187,12 +187,12 @@ func SplitList(s string) []string {
 	return strings.Split(s, ",")
 }
 
-// Tok prints a string as a token (empty string is "-").
+// Tok prints a string as a token (empty string is "-"; a blank is written "~", a tab "^": tokens hold no white space).
 func Tok(s string) string {
 	if s == "" {
 		return "-"
 	}
-	return s
+	return strings.NewReplacer(" ", "~", "\t", "^").Replace(s)
 }
 
 // Untok is the inverse of Tok.
@@ -200,7 +200,7 @@ func Untok(s string) string {
 	if s == "-" {
 		return ""
 	}
-	return s
+	return strings.NewReplacer("~", " ", "^", "\t").Replace(s)
 }
 
 // ---- genesis
